@@ -240,6 +240,10 @@ def run_shard(spec, tier, seed, budget_s):
             continue
         for s in range(nst):
             check(sh, doc, f'{seed}-{j}-{s}', 'product')
+        # properties that share their physical line with the next / previous element of the table body (same oracle and
+        # the same calibrated list of admitted joins as C01's same-line layouts)
+        from pv.props import c01 as _c01
+        _c01.joined_layouts(sh, doc, f'{seed}-{j}-joined')
     rng = random.Random(f'{seed}-c15-{i}')
     k = 0
     target = {'quick': 200, 'thorough': 3000}[tier]
